@@ -113,6 +113,12 @@ def _arg_shapes(cls):
             shapes[name] = T.Bytes(minlen=1, maxlen=128)
             given.append(name)
             order.append((name, avpcls, "bytes"))
+        elif name == "auth_application_id" and (default is inspect._empty or isinstance(default, bytes)):
+            # forwarded to the header's Application-ID by some classes (ASR, RAR, DER, DEA): ANY 4 bytes, so that
+            # "P flag exactly when the Application-ID is non-zero" is decided for every identifier
+            shapes[name] = T.Bytes(4)
+            given.append(name)
+            order.append((name, avpcls, "bytes"))
         elif kind in SIMPLE and not custom and name not in ("auth_application_id",):
             shapes[name] = SIMPLE[kind]()
             given.append(name)
